@@ -17,6 +17,7 @@ def gen_groupsum():
     src = [ast.unparse(s) for s in body]
     guard = False
     form = None
+    tau_checked = counts = False
     for s, node in zip(src, body):
         if s.startswith("if isinstance(x, PackBitsTensor):"):
             continue
@@ -28,19 +29,32 @@ def gen_groupsum():
         # the accumulator of the count: float32 for 16-bit inputs, the input's own dtype otherwise (on the rationals: no effect)
         if s == "acc = torch.float32 if x.dtype in (torch.float16, torch.bfloat16) else None":
             continue
+        # tau is validated on every call (it may have been assigned after construction)
+        if s == "self._check_tau(self.tau)":
+            tau_checked = True
+            continue
+        if s == "counts = x.reshape(*x.shape[:-1], self.k, x.shape[-1] // self.k).sum(-1, dtype=acc) + self.beta":
+            counts = True
+            continue
         if isinstance(node, ast.Return):
             e = ast.unparse(node.value)
-            if e == "(x.reshape(*x.shape[:-1], self.k, x.shape[-1] // self.k).sum(-1, dtype=acc) + self.beta) / self.tau":
+            # (count + beta) / tau, the division carried out in float64 and rounded back (on the rationals: count + beta over tau)
+            if counts and e == "(counts.to(torch.float64) / self.tau).to(torch.result_type(counts, 1.0))":
                 form = "SumPlusBetaOverTau"
                 continue
             _fail("unknown return expression " + e)
         _fail("statement " + s)
     if form is None:
         _fail("no return")
+    chk = [n for n in cls[0].body if isinstance(n, ast.FunctionDef) and n.name == "_check_tau"]
+    if not tau_checked or len(chk) != 1 or [ast.unparse(st) for st in chk[0].body if not (isinstance(st, ast.Expr) and isinstance(st.value, ast.Constant))] != [
+            "if not 0 < tau < math.inf:\n    raise ValueError(f'tau must be positive and finite, got {tau}.')"]:
+        _fail("tau is not validated on every call by `if not 0 < tau < math.inf: raise`")
     init = [n for n in cls[0].body if isinstance(n, ast.FunctionDef) and n.name == "__init__"][0]
     defaults = {a.arg: ast.unparse(d) for a, d in zip(init.args.args[-len(init.args.defaults):], init.args.defaults)}
     out = HEADER + "Inductive gs_form_kind := SumPlusBetaOverTau.\n"
     out += f"Definition gs_form : gs_form_kind := {form}.\n"
     out += f"Definition gs_guard_divisible : bool := {'true' if guard else 'false'}.\n"
+    out += "Definition gs_tau_checked_every_call : bool := true.\n"
     out += f"(* defaults: {defaults} *)\n"
     return out
